@@ -718,6 +718,9 @@ func (vc *VC) typeFacts(l *Layouter, t types.Type, c []string, brk string) []str
 		}
 		out = append(out, app("<", c[0], brk), app(">=", c[1], "0"), app(">=", c[2], "0"), app(">=", c[3], c[2]), app("<", c[3], "9223372036854775808"),
 			sImp(sEq(c[0], "0"), sAnd(sEq(c[2], "0"), sEq(c[3], "0"), sEq(c[1], "0"))))
+		// a slice never points into the cell of a local variable that holds no array (row kind isCell)
+		vc.declFun("isCell", []Sort{SInt}, SBool)
+		out = append(out, sNot(app("isCell", c[0])))
 	case *types.Interface:
 		out = append(out, app(">=", c[0], "0"), sImp(sEq(c[0], "0"), sEq(c[1], "0")))
 		if vc.eng != nil && vc.eng.bigPtr != nil && tt.NumMethods() == 0 {
